@@ -397,7 +397,8 @@ class World:
                        "tensor_requested_without_recalculation_after_another", "tensor_with_inhomogeneous_term",
                        "inhomogeneous_tensor_shared_by_two_propagators", "ordinary_heom_run_after_free_hierarchy_run",
                        "bath_time_axis_not_starting_at_zero", "bath_edited_between_calls",
-                       "function_added_to_a_free_slot_of_the_bath_matrix"]
+                       "function_added_to_a_free_slot_of_the_bath_matrix",
+                       "same_tensor_class_built_before_and_after_filling_the_free_slot"]
     required_faults = []
     components = {
         "real": ["Aggregate/Molecule builders", "OpenSystem.get_RelaxationTensor (stR TI/TD, operator form, secular; stF TI/TD; cRF with cut-off)",
@@ -450,6 +451,11 @@ class World:
         heom_pipe = (not pipeline) and rng.random() < 0.45
         if heom_pipe:
             pipeline = ["make_heom", "propagate_heom", "propagate_heom", "make_heom", "propagate_heom"]
+        # ... or with the hand-made system: a Foerster-type tensor before and after its second bath function is set
+        direct_pipe = (not pipeline) and rng.random() < 0.45
+        if direct_pipe:
+            pipeline = ["direct_tensor", "direct_edit", "direct_tensor"]
+            dcls = rng.choice(["F", "TDF"])
         for step in range(n + len(pipeline)):
             k = pipeline[step] if step < len(pipeline) else rng.choice(kinds)
             op = {"op": k, "sys": 0 if step < len(pipeline) else rng.randrange(nsys), "a": rng.randrange(16), "b": rng.randrange(16)}
@@ -479,7 +485,7 @@ class World:
             elif k == "rwa_query":
                 op["unit"] = rng.choice(["1/cm", "eV", "1/cm"])
             elif k == "direct_tensor":
-                op["cls"] = rng.choice(["F", "F", "TDF"])
+                op["cls"] = dcls if (direct_pipe and step < len(pipeline)) else rng.choice(["F", "F", "TDF"])
             elif k == "edit_bath":
                 op["k"] = rng.randrange(3)
                 op["reorg"] = round(rng.uniform(20, 90), 1)
@@ -563,6 +569,7 @@ class Runner:
         states = {}       # (sys, json(state)) -> exists
         plan = []
         dfun = [1]                         # bath functions set in the hand-made system (it starts with one)
+        dseen = {}
         ver = [0] * len(S)                 # number of bath edits made so far, per system
         for sp in S:
             sp["edits"] = []
@@ -581,6 +588,9 @@ class Runner:
             spec = S[j]
             if k == "direct_tensor":
                 plan.append(("direct_tensor", {"kind": "direct_tensor", "cls": op["cls"], "nfun": dfun[0]}, None))
+                dseen.setdefault(op["cls"], set()).add(dfun[0])
+                if len(dseen[op["cls"]]) >= 2:
+                    self.ctx.probe("same_tensor_class_built_before_and_after_filling_the_free_slot")
             elif k == "direct_edit":
                 if dfun[0] >= 2:
                     plan.append(("noop", None, None))
